@@ -120,6 +120,10 @@ def gen_flat(rng, cls, max_size=8):
         mt = rng.choice([max(1, base - 1), base, base + 1, base + 2, 2 * base, 2 * base + 1])
         mt = min(mt, 10)
         cons.append({"type": "MinimumTrials", "trials": mt})
+        if rng.random() < 0.3:
+            # several MinimumTrials: the largest counts, whatever the order
+            other = {"type": "MinimumTrials", "trials": max(1, mt - rng.randint(1, 3))}
+            cons.insert(rng.choice([0, len(cons)]), other)
     Th = _T_hint(spec, crossing, mt)
     ncons = {"K1": 0, "K2": rng.choice([0, 1]), "K3": rng.choice([0, 1]), "K4": rng.choice([0, 1]),
              "K5": rng.choice([1, 1, 2, 3]), "K6": rng.choice([0, 1]), "K7": rng.choice([0, 1])}.get(cls, 0)
@@ -174,7 +178,7 @@ def gen_multicross(rng):
 
 
 def gen_repeat(rng, aligned=None):
-    spec = gen_flat(rng, rng.choice(["K1", "K1", "K3", "K4", "K5"]), max_size=4)
+    spec = gen_flat(rng, rng.choice(["K1", "K1", "K3", "K4", "K5", "K6"]), max_size=4)
     b = spec["block"]
     names = b["design"]
     from . import ref
@@ -220,7 +224,7 @@ def gen_merge(rng):
             crossing = crossing[:1] + ["D0"]
         Th = _T_hint(spec, crossing)
         cons = [gen_constraint(rng, spec, design, Th, types=RUN_TYPES + ["Pin"]) for _ in range(rng.choice([0, 1, 1]))]
-        if rng.random() < 0.15:
+        if rng.random() < 0.3:
             cons.append({"type": "MinimumTrials", "trials": rng.randint(2, 6)})
         blocks.append({"op": "cross", "design": design, "crossings": [crossing], "cons": cons,
                        "rcc": True, "mode": "weight", "align": "equal", "ctor": "CrossBlock"})
@@ -255,6 +259,8 @@ def gen_nest(rng, deep=None):
     elif r < 0.4:
         ocons.append(gen_constraint(rng, spec, [outer_f], len(spec["factors"][outer_f]["levels"]),
                                     types=["Pin", "ExactlyK"], boundary=False))
+    if rng.random() < 0.25:
+        ocons.append({"type": "MinimumTrials", "trials": rng.randint(2, 4)})
     outer = cross([outer_f], [outer_f], ocons)
     if deep is None:
         deep = rng.random() < 0.25
@@ -285,6 +291,8 @@ def gen_nest(rng, deep=None):
     icross = inner_b[:rng.choice([1, 1, 2])]
     Th = _T_hint(spec, icross)
     icons = [gen_constraint(rng, spec, inner_names, Th, types=RUN_TYPES + ["Pin"]) for _ in range(rng.choice([0, 0, 1]))]
+    if rng.random() < 0.25:
+        icons.append({"type": "MinimumTrials", "trials": rng.randint(2, 5)})
     inner = cross(inner_names, icross, icons)
     ncons = []
     if rng.random() < 0.3:
@@ -327,7 +335,7 @@ def gen_combo(rng):
     names = list(spec["order"])
     options = [["A", "W"], ["W"], ["A"], ["A", "B"], ["B", "W"]]
     if has_tr:
-        options += [["W", "Tr"], ["A", "Tr"], ["W", "Tr"], ["B", "Tr"]]
+        options += [["W", "Tr"], ["A", "Tr"], ["W", "Tr"], ["B", "Tr"], ["Tr"], ["Tr"]]
     if "V" in F:
         options += [["V"], ["A", "V"]]
     crossing = rng.choice(options)
